@@ -57,16 +57,16 @@ CHECKS = {
             "Generated histories over 1-3 shared programs (with and without event mode): 10-60 sequential calls, then 2-16 goroutines x 10-200 calls behind a barrier; each call must return what a fresh unshared compilation returns; the flat program (read-only hook) must be bit-identical afterwards; the whole binary runs with -race, halting on the first report with the case already on disk. Exploration: interleavings are sampled by the scheduler, not enumerated.",
             "The race detector is happens-before based: an unsynchronised write to shared program state is reported on any schedule in which both accesses occur. Custom operators used here are pure and lock-free.", "§3 C07"),
     "C08": ("stateful property-based testing of Compile/CopyConfig/ExtendConf histories with deep config snapshots, repeated and concurrent compilation under the Go race detector (rapid)",
-            "Generated histories over one shared Config and several sources with valid, malformed or no directives: the caller's config is deep-compared after every Compile, the same source must always yield the same verdict/Dump/DumpTable/outcomes (again, reversed, on copies, concurrently from 2-8 goroutines), mutations of copies never reach the source and vice versa. Exploration.",
+            "Generated histories over one shared Config and several sources with valid, malformed or no directives: the caller's config is deep-compared after every Compile, the same source must always yield the same verdict/Dump/DumpTable/outcomes (again, reversed, on copies, concurrently from 2-8 goroutines), mutations of copies never reach the source and vice versa; a fixed set of canary programs compiled before the first and after the last case of every shard must give identical results (whole-run history). Exploration.",
             "Mutable state of a Config = its five maps and the stateless slice (list-valued constants are shared by reference; not asserted).", "§3 C08"),
     "C09": ("constructed boundary-value generation with an exhaustive parameter grid + random sampling around the limits; differential against the reference evaluator and the harness's own size accounting (rapid)",
-            "Programs built to sit on the 127-operand, 16383/16384-node (event doubling), 32767-node and 8/16 stack-class boundaries, x option subsets x event modes: Compile must reject exactly the programs the harness counts as beyond a limit, never panic; accepted programs must have the counted size, a sufficient stack bound (hook) and evaluate (Eval and TryEval) to R's value. The grid is enumerated (reduced in quick, full in thorough). Exploration over the constructed family.",
-            "Trusted: the harness's flattening model (and/or directly inside the same operator is merged) and node accounting, cross-checked against the compiled program's size through the hook.", "§3 C09"),
+            "Programs built to sit on the 127-operand, 16383/16384-node (event doubling), 32767-node and 8/16 stack-class boundaries, x option subsets x event modes: Compile must accept every program the harness's size model puts within the limits and never panic; a program the model puts beyond a limit is rejected, or compiles to something smaller that is itself within the limits; every compiled program (size and widest operator read through the hook) is within the limits, has a sufficient stack bound and evaluates (Eval and TryEval) to R's value. The grid is enumerated (reduced in quick, full in thorough). Exploration over the constructed family.",
+            "Trusted: the harness's flattening model (and/or directly inside the same operator is merged) and node accounting as the definition of 'within the limits'; agreement with the compiled program's size (hook) is recorded, not demanded.", "§3 C09"),
     "C10": ("property-based testing with call-logging custom operators: compile-time vs run-time invocation accounting, repeated evaluation against the reference on the dumped program, folding-soundness predicate (rapid)",
             "Constant-dense generated trees with declared-stateless, undeclared, stateful and failing operators x 16 subsets x 1-5 evaluations: Compile never fails, invokes only declared-stateless operators; each evaluation performs exactly the calls R performs on the dumped tree with state threaded through (a baked-in result shows from the 2nd evaluation); folding is checked against the stated rule as a validity predicate. Exploration.",
             "Trusted: reference evaluator, Dump reader.", "§3 C10"),
     "C12": ("property-based testing of the event stream against the reference evaluator's list of operator applications, with retaining / buffered / scribbling consumers (rapid)",
-            "Generated case x subsets x {Eval, TryEval} x {ReportEvent, Debug} x three consumer behaviours: results, effects and Dump equal the event-free run; OP_EXEC events compared after the evaluation with R's applications on the dumped tree (names, arguments as at call time, results); retained events equal receipt-time copies; LOOP positions increase. Exploration.",
+            "Generated case x subsets x {Eval, TryEval} x {ReportEvent, Debug} x three consumer behaviours: results, effects and Dump equal the event-free run; OP_EXEC events compared after the evaluation with R's applications on the dumped tree (names, arguments as at call time, results); retained events equal receipt-time copies; LOOP positions increase and (Eval) the Stack snapshots follow the operand-stack discipline from one LOOP event to the next, judged from public event data only. Exploration.",
             "The final fold of a non-fast and/or with no absorbing operand may or may not be reported (decided by a jump).", "§3 C12"),
 }
 
